@@ -1029,6 +1029,57 @@ static void run_c01_c04(void) {
             }
             vh_class("bit_io", "72 start positions x 64 widths x 8 values");
         }
+        /* reserve-then-fill: a field of h zero bits is written at bit s, more bits are appended behind it, then the
+         * caller moves the (public) position back, writes the field's value and restores the position - the usual way
+         * to emit a count in front of its payload. A write owns exactly its own bits: the stream must equal the one
+         * written in order. */
+        if (vh_section_begin("bit_io_reserved")) {
+            static const size_t TAILS[5] = {1, 7, 8, 9, 23};
+            for (size_t s = 0; s < 16; s++) {
+                for (size_t h = 1; h <= 64; h++) {
+                    if (!vh_case()) {
+                        continue;
+                    }
+                    uint64_t mask = h == 64 ? UINT64_MAX : ((1ULL << h) - 1);
+                    uint64_t hv[4] = {mask, 1, 1ULL << (h - 1), 0x5555555555555555ULL & mask};
+                    for (int ti = 0; ti < 5; ti++) {
+                        for (int vi = 0; vi < 4; vi++) {
+                            uint8_t a[40], b[40];
+                            varintBitWriter wa, wb;
+                            varintBitWriterInit(&wa, a, sizeof a);
+                            varintBitWriterInit(&wb, b, sizeof b);
+                            uint64_t lead = 0x2AAA & ((1ULL << s) - 1), tail = (1ULL << TAILS[ti]) - 1;
+                            /* in order */
+                            varintBitWriterWrite(&wa, lead, s);
+                            varintBitWriterWrite(&wa, hv[vi], h);
+                            varintBitWriterWrite(&wa, tail, TAILS[ti]);
+                            size_t ga = varintEliasGammaEncode(&wa, 5 + (uint64_t)vi);
+                            /* reserve, append, fill */
+                            varintBitWriterWrite(&wb, lead, s);
+                            varintBitWriterWrite(&wb, 0, h);
+                            varintBitWriterWrite(&wb, tail, TAILS[ti]);
+                            size_t gb = varintEliasGammaEncode(&wb, 5 + (uint64_t)vi);
+                            size_t end = wb.bitPos;
+                            wb.bitPos = s;
+                            varintBitWriterWrite(&wb, hv[vi], h);
+                            int posok = wb.bitPos == s + h;
+                            wb.bitPos = end;
+                            if (!posok || ga != gb || wa.bitPos != end || memcmp(a, b, sizeof a) != 0) {
+                                size_t at = 0;
+                                while (at < sizeof a && a[at] == b[at]) {
+                                    at++;
+                                }
+                                vh_fail("elias.BitWriter/BitReader", "bytes_differ_from_reference", "untagged", "field of %zu bits reserved at bit %zu, %zu more bits and one gamma code appended, then the field filled with 0x%" PRIx64 ": byte %zu is %02x, written in order it is %02x", h, s,
+                                        TAILS[ti], hv[vi], at, at < sizeof a ? b[at] : 0, at < sizeof a ? a[at] : 0);
+                            }
+                            vh_count("calls", 10);
+                        }
+                    }
+                    vh_count("cases", 1);
+                }
+            }
+            vh_class("bit_io_reserved", "16 positions x 64 field widths x 5 tails x 4 values");
+        }
         /* producer and consumer on ONE buffer: a long-lived reader follows a writer that keeps appending into the byte
          * the reader is positioned in (chunk sizes that are not byte multiples) */
         if (vh_section_begin("bit_io_interleaved")) {
